@@ -29,6 +29,24 @@ type failWriter struct{}
 
 func (failWriter) Write(p []byte) (int, error) { return len(p) / 2, errWriter }
 
+// reentrantWriter formats with the library before it consumes its input.
+type reentrantWriter struct{ got []byte }
+
+func (w *reentrantWriter) Write(p []byte) (int, error) {
+	_ = redact.Sprintf("stamp %d %s", len(p), "ZZZZZZZZZZZZZZZZZZZZZZZZZZZZZZZZ")
+	w.got = append(w.got, p...)
+	return len(p), nil
+}
+
+// yieldWriter yields to the scheduler before it consumes its input.
+type yieldWriter struct{ got []byte }
+
+func (w *yieldWriter) Write(p []byte) (int, error) {
+	c12Sched.Point("writer")
+	w.got = append(w.got, p...)
+	return len(p), nil
+}
+
 type reentrantStr struct{ s string }
 
 func (r reentrantStr) String() string { return string(redact.Sprintf("inner[%s|%d]", r.s, 5)) }
@@ -149,6 +167,16 @@ var c12Calls = []c12Call{
 	{"hex/quote", func() string { return string(redact.Sprintf("%x % x %q %c", "hi", []byte("yo"), "q", 'c')) }},
 	{"Sprint spacing", func() string { return string(redact.Sprint(1, 2, "a", "b", 3.5, nil)) }},
 	{"Redactable operand", func() string { return string(redact.Sprintf("%v.", redact.RedactableString("r"+mStart+"x"+mEnd))) }},
+	{"Fprintf to a writer that formats before consuming", func() string {
+		w := &reentrantWriter{}
+		n, err := redact.Fprintf(w, "entry %s from %v", "user", redact.Safe("10.0.0.1"))
+		return fmt.Sprint(string(w.got), n, err)
+	}},
+	{"Fprint to a yielding writer", func() string {
+		w := &yieldWriter{}
+		n, err := redact.Fprint(w, "abc", 1, redact.Safe("s"))
+		return fmt.Sprint(string(w.got), n, err)
+	}},
 	{"yielding Stringer", func() string { return string(redact.Sprintf("<%v|%v>", yieldStr{"y1"}, yieldStr{"y2"})) }},
 }
 
@@ -196,6 +224,7 @@ func (c *chooser) choose(width int, cost func(alt int) int) int {
 
 // pool controller: alternatives are [most recent, 2nd, ..., New]; with an empty pool only New.
 type poolCtl struct {
+	cold     bool // reference runs: every Get is answered with a new printer
 	ch       *chooser
 	s        *sched
 	recycled int
@@ -203,6 +232,9 @@ type poolCtl struct {
 }
 
 func (p *poolCtl) Choose(n int) int {
+	if p.cold {
+		return n
+	}
 	k := p.ch.choose(n+1, func(alt int) int {
 		if alt == 0 {
 			return 0
@@ -329,6 +361,7 @@ func c12Init() {
 		// references: every call once from a cold pool (always a new printer), no scheduler
 		vsync.SetController(c12Pool)
 		c12Ch.quiet = true
+		c12Pool.cold = true
 		for _, cl := range c12Calls {
 			vsync.Clear()
 			c12RefsNoHook = append(c12RefsNoHook, clone(cl.Run()))
@@ -348,6 +381,7 @@ func c12Init() {
 			}
 		}
 		c12Ch.quiet = false
+		c12Pool.cold = false
 	})
 }
 
@@ -685,7 +719,7 @@ func c12Worker(args []string) int {
 
 // scenarios: which calls run on which threads
 func c12Scenarios(tier string) [][][]int {
-	sel := []int{0, 8, 12, 14, 16, 17, 18, 19, 21, 26, 27, 28, 29, 34}
+	sel := []int{0, 8, 13, 14, 16, 17, 18, 19, 21, 26, 27, 28, 29, 34, 35, 36}
 	var sc [][][]int
 	for i, a := range sel {
 		for _, b := range sel[i:] {
@@ -693,7 +727,7 @@ func c12Scenarios(tier string) [][][]int {
 		}
 	}
 	if tier == "thorough" {
-		small := []int{0, 8, 14, 17, 18, 27, 34}
+		small := []int{0, 8, 14, 17, 18, 27, 35, 36}
 		for _, a := range small {
 			for _, b := range small {
 				sc = append(sc, [][]int{{a, b}, {b, a}})
